@@ -280,7 +280,8 @@ example : contiguous (demoBad.map classify) = false := by decide +kernel
 section Files
 open PrologVerif.Files
 
-/-- **C20_file_loads_refine_spec**: for ALL histories (any file contents, broken, repaired or
+/-- **C20_file_loads_refine_spec**: for ALL histories (any file contents AND ANY FAULT PLANS —
+    open errors, read errors after any number of items, directories —, broken, repaired or
     changed between any two steps; any nesting of loads; any fuel; any evaluator of ordinary
     goals) the model of the code — which registers a file before compiling it and unregisters it
     when the load fails — returns at every step the result of the specification — in which a
@@ -374,17 +375,108 @@ theorem C20_loaded_persists (ev : Eval) (fuel : Nat) (w : World) (steps : List F
     | consult arg => exact (mono_all w.fs ev fuel).2.1 w.vm (fileNames arg) f h
     | exec items => exact (mono_all w.fs ev fuel).2.2.2.2 w.vm items f h
 
+/-! ### faulty file systems: read errors
+
+  A `Files.Step.write` carries the file's FAULT PLAN, so every theorem above that quantifies over
+  `fs : FileSys` or over histories already quantifies over all fault plans (open fails, read fails
+  after any number of items, inside a clause or on a clause boundary, the name is a directory),
+  changing arbitrarily between the steps. -/
+
+/-- a candidate with ANY fault — `Open` fails, the name is a directory, `Read` fails after `k`
+    items for every `k`, inside a clause or exactly on a clause boundary — is not usable, however
+    much of it `fs.ReadFile` handed back -/
+theorem C20_faulty_candidate_is_skipped (fs : FileSys) (n : String) (fl : File)
+    (hread : fs.read n = some fl) (hfault : fl.fault ≠ .none) : tryCandidate fs n = none := by
+  unfold tryCandidate readFile
+  rw [hread]
+  cases hf : fl.fault with
+  | none => exact absurd hf hfault
+  | openFails => simp [hf]
+  | readFails k inside => simp [hf]
+  | directory => simp [hf]
+
+/-- **C20_no_partial_text**: the text `VM.open` hands to the loader is never a proper prefix (nor
+    any other part) of a file: it is the WHOLE content of the file found, and that file was read
+    without error — for every file system and every fault plan. -/
+theorem C20_no_partial_text (fs : FileSys) (file : Term) (f : String) (items : List Item)
+    (hopen : openFile fs file = .ok (f, items)) :
+    ∃ fl, fs.read f = some fl ∧ fl.fault = .none ∧ items = fl.content := by
+  have key : ∀ n its, tryCandidate fs n = some its →
+      ∃ fl, fs.read n = some fl ∧ fl.fault = .none ∧ its = fl.content := by
+    intro n its h
+    unfold tryCandidate at h
+    cases hr : fs.read n with
+    | none => simp [hr] at h
+    | some fl =>
+      simp only [hr] at h
+      unfold readFile at h
+      cases hf : fl.fault with
+      | none =>
+        simp only [hf, Option.some.injEq] at h
+        exact ⟨fl, rfl, hf, h.symm⟩
+      | openFails => simp [hf] at h
+      | readFails k inside => simp [hf] at h
+      | directory => simp [hf] at h
+  unfold Files.openFile at hopen
+  split at hopen
+  · cases hopen
+  · rename_i s
+    cases h1 : tryCandidate fs s with
+    | some its =>
+      simp only [h1, Except.ok.injEq, Prod.mk.injEq] at hopen
+      obtain ⟨rfl, rfl⟩ := hopen
+      exact key _ _ h1
+    | none =>
+      simp only [h1] at hopen
+      cases h2 : tryCandidate fs (s ++ ".pl") with
+      | some its =>
+        simp only [h2, Except.ok.injEq, Prod.mk.injEq] at hopen
+        obtain ⟨rfl, rfl⟩ := hopen
+        exact key _ _ h2
+      | none => simp [h2] at hopen
+  · cases hopen
+
+/-- **C20_read_fault_is_load_failure**: when no candidate name can be read completely — absent or
+    faulty in any way — the load (both in the model of the code and in the specification) raises
+    existence_error(source_sink, File) and the WHOLE VM state, procedure table and registrations,
+    is exactly as before: nothing of what was read before the error is compiled, nothing is
+    registered. -/
+theorem C20_read_fault_is_load_failure (pol : Policy) (fs : FileSys) (ev : Eval) (fuel : Nat) (vm : VM) (s : String)
+    (h1 : tryCandidate fs s = none) (h2 : tryCandidate fs (s ++ ".pl") = none) :
+    ensureLoaded pol fs ev (fuel + 1) vm (.atom s) =
+      (vm, some (.iso (existenceErr "source_sink" (.atom s)))) := by
+  rw [ensureLoaded]
+  simp [Files.openFile, h1, h2]
+
 /-! non-vacuity: the outside tester's scenario — consult a broken lib, repair it, consult again -/
 
 def libBroken : List Item := [.term (Term.a1 "lib" (.int 1)), .syntaxError, .term (Term.a1 "lib" (.int 3))]
 def libFixed : List Item := [.term (Term.a1 "lib" (.int 1)), .term (Term.a1 "lib" (.int 2))]
 def demoFiles : List Files.Step :=
-  [ .write "lib.pl" libBroken, .consult (.atom "lib"), .consult (.atom "lib"),
-    .write "lib.pl" libFixed, .consult (.atom "lib"), .write "lib.pl" libBroken, .consult (.atom "lib.pl") ]
+  [ .write "lib.pl" ⟨libBroken, .none⟩, .consult (.atom "lib"), .consult (.atom "lib"),
+    .write "lib.pl" ⟨libFixed, .none⟩, .consult (.atom "lib"), .write "lib.pl" ⟨libBroken, .none⟩,
+    .consult (.atom "lib.pl") ]
 
 example : (run .code (fun _ _ => .ok) 50 World.empty demoFiles).2 =
     [none, some .syntax, some .syntax, none, none, none, none] := by decide +kernel
 example : (run .code (fun _ _ => .ok) 50 World.empty demoFiles).1.vm.loaded = ["lib.pl"] := by decide +kernel
+
+/-- facts.pl = q(a). q(b). q(c). r(a). whose read fails after q(b): the load fails, q/1 keeps its old
+    clause, nothing is registered; after the repair the whole file is loaded -/
+def factsItems : List Item :=
+  [.term (Term.a1 "q" (.atom "a")), .term (Term.a1 "q" (.atom "b")), .term (Term.a1 "q" (.atom "c")),
+   .term (Term.a1 "r" (.atom "a"))]
+def demoReadFault : List Files.Step :=
+  [ .exec [.term (Term.a1 "q" (.atom "old"))], .write "facts.pl" ⟨factsItems, .readFails 2 false⟩,
+    .consult (.atom "facts"), .write "facts.pl" ⟨factsItems, .none⟩, .consult (.atom "facts") ]
+example : (run .code (fun _ _ => .ok) 50 World.empty (demoReadFault.take 3)).2 =
+    [none, none, some (.iso (existenceErr "source_sink" (.atom "facts")))] := by decide +kernel
+example : ((run .code (fun _ _ => .ok) 50 World.empty (demoReadFault.take 3)).1.vm.procs.get ⟨"q", 1⟩) =
+    some (.user ⟨false, false, false, false, [Term.a1 "q" (.atom "old")]⟩) := by decide +kernel
+example : (run .code (fun _ _ => .ok) 50 World.empty (demoReadFault.take 3)).1.vm.loaded = [] := by decide +kernel
+example : ((run .code (fun _ _ => .ok) 50 World.empty demoReadFault).1.vm.procs.get ⟨"q", 1⟩) =
+    some (.user ⟨false, false, false, false,
+      [Term.a1 "q" (.atom "a"), Term.a1 "q" (.atom "b"), Term.a1 "q" (.atom "c")]⟩) := by decide +kernel
 example : stagedClauses ⟨[], [], []⟩ ⟨"lib", 1⟩ = [] := rfl
 example : ((run .code (fun _ _ => .ok) 50 World.empty demoFiles).1.vm.procs.get ⟨"lib", 1⟩) =
     some (.user ⟨false, false, false, false, [Term.a1 "lib" (.int 1), Term.a1 "lib" (.int 2)]⟩) := by
